@@ -33,6 +33,14 @@ package channel
 //@   pure
 //@   ensures tr == t.Transport
 
+// two endpoints are the same only if they are of the same kind and agree in EVERY field - in particular the host: the
+// check that a global channel alias is claimed by one endpoint only (Manager.configureTasks) rests on this
+//@ func EndpointEquals(e Endpoint, f Endpoint) (eq bool)
+//@   property C13
+//@   ensures e is TcpEndpoint && f is TcpEndpoint ==> (eq <==> e.(TcpEndpoint).Host == f.(TcpEndpoint).Host && e.(TcpEndpoint).Port == f.(TcpEndpoint).Port && e.(TcpEndpoint).Transport == f.(TcpEndpoint).Transport)
+//@   ensures e is IpcEndpoint && f is IpcEndpoint ==> (eq <==> e.(IpcEndpoint).Path == f.(IpcEndpoint).Path && e.(IpcEndpoint).Transport == f.(IpcEndpoint).Transport)
+//@   ensures (e is TcpEndpoint && f is IpcEndpoint) || (e is IpcEndpoint && f is TcpEndpoint) ==> !eq
+
 // Endpoint interface: value-level, no side effects (assumed for every implementation; the two implementations above are
 // verified field by field)
 //@ ghost func addrOfE(e Endpoint) string
